@@ -4,6 +4,7 @@ CONSTANTS
   Expiry = 1209600
   MaxReplClusters = 100
   MaxClusterCount = 64
+  Ext <- ExtNone
 INIT Init
 NEXT Next
 CHECK_DEADLOCK FALSE
